@@ -195,3 +195,9 @@ h_divzero!(c02_q_divzero_div_bvd1_l3_empty, 4, vec, bvd1(3), bvd0(0), |a, b| { l
 h_divzero!(c02_q_divzero_divassign_bvfix_l3_u16, 5, int, bvfix(3), iu16(), |a, b| { let mut x = a; x /= b; });
 h_divzero!(c02_q_divzero_remassign_bvdyn1_l3_u8, 9, int, bvdyn1(3), iu8(), |a, b| { let mut x = a; x %= &b; });
 
+
+// ---- the `/` and `%` operators themselves (not div_rem) on one-word vectors of different word
+// types, and on the other cheap pairings (kind `int` selects `(&a / &b, &a % &b)`) -----------------
+h_divq2!(c02_q_divq2ops_f8x1_f16x1, 4, int, f8x1(anylen(8)), f16x1(anylen(16)));
+h_divq2!(c02_q_divq2ops_f8x2_f8x3, 4, int, f8x2(anylen(16)), f8x3(anylen(24)));
+h_divq2!(c02_t_divq2ops_f16x1_f64x1, 4, int, f16x1(anylen(16)), f64x1(anylen(64)));
